@@ -6,12 +6,14 @@ From GV Require Import Base.Prelude Exec.Value Exec.Schema Exec.Spec Exec.SpecPr
 Lemma value_ind' (P : value -> Prop) :
   P VNull -> (forall z, P (VInt z)) -> (forall n d, P (VFloat n d)) -> (forall x, P (VStr x)) ->
   (forall b, P (VBool b)) -> (forall x, P (VEnum x)) -> (forall x, P (VVar x)) ->
-  (forall l, Forall P l -> P (VList l)) -> forall v, P v.
+  (forall l, Forall P l -> P (VList l)) ->
+  (forall l, Forall (fun kv => P (snd kv)) l -> P (VObj l)) -> forall v, P v.
 Proof.
-  intros Hn Hi Hf Hs Hb He Hv Hl. fix IH 1.
-  intros [ | z | n d | x | b | x | x | l];
-    [exact Hn | apply Hi | apply Hf | apply Hs | apply Hb | apply He | apply Hv | ].
-  apply Hl. induction l as [|x r IHr]; constructor; [apply IH | exact IHr].
+  intros Hn Hi Hf Hs Hb He Hv Hl Ho. fix IH 1.
+  intros [ | z | n d | x | b | x | x | l | l];
+    [exact Hn | apply Hi | apply Hf | apply Hs | apply Hb | apply He | apply Hv | | ].
+  - apply Hl. induction l as [|x r IHr]; constructor; [apply IH | exact IHr].
+  - apply Ho. induction l as [|[k x] r IHr]; constructor; [apply IH | exact IHr].
 Qed.
 
 Lemma lookup_In {A} k (l : list (str * A)) v : lookup k l = Some v -> In (k, v) l.
@@ -38,17 +40,25 @@ Proof.
   - intro H. destruct (IH H) as [H1 H2]. split; [right; exact H1 | exact H2].
 Qed.
 
-(* ------------------------------------------------------------------ variable values *)
+Lemma find_arg_In n l ad : find_arg n l = Some ad -> In ad l /\ a_name ad = n.
+Proof.
+  induction l as [|a r IH]; cbn; [discriminate|].
+  destruct (str_eqb n (a_name a)) eqn:E.
+  - intro H. inversion H; subst. apply str_eqb_eq in E. split; [left; reflexivity | congruence].
+  - intro H. destruct (IH H) as [H1 H2]. split; [right; exact H1 | exact H2].
+Qed.
 
-(* what variable coercion guarantees about the coerced map *)
-Definition cv_ok (vdefs : list var_def) (cv : list (str * value)) : Prop :=
-  forall vd, In vd vdefs ->
-    (is_nonnull (v_type vd) = true -> exists c, lookup (v_name vd) cv = Some c /\ c <> VNull) /\
-    (has_nonnull_default (v_default vd) = true -> exists c, lookup (v_name vd) cv = Some c).
+Lemma nodup_names_head x r : nodup_names (x :: r) = true -> ~ In x r /\ nodup_names r = true.
+Proof.
+  cbn. intro H. apply andb_true_iff in H. destruct H as [H1 H2]. split; [|exact H2].
+  apply negb_true_iff in H1. apply mem_not_In. exact H1.
+Qed.
+
+(* ------------------------------------------------------------------ coerced values are not null *)
 
 Lemma coerce_leaf_lit_nonnull s n v c : coerce_leaf_lit s n v = Some c -> c <> VNull.
 Proof.
-  unfold coerce_leaf_lit. destruct (lookup_type s n) as [[[]|vals| | |]|]; try discriminate;
+  unfold coerce_leaf_lit. destruct (lookup_type s n) as [[[]|vals| | | |]|]; try discriminate;
     destruct v; try discriminate; intro H; try (inversion H; subst; discriminate).
   - destruct (in_int_range z); inversion H; subst; discriminate.
   - destruct (mem s0 vals); inversion H; subst; discriminate.
@@ -62,21 +72,33 @@ Proof.
   - apply IH.
 Qed.
 
-Lemma coerce_lit_nonnull s cv v t c :
-  is_nonnull t = true -> coerce_lit s cv v t = Some c -> c <> VNull.
+Lemma wrap_list_nonnull k c : c <> VNull -> wrap_list k c <> VNull.
+Proof. destruct k; cbn; [auto | discriminate]. Qed.
+
+(* a literal that is neither null nor a variable, or any literal at a non-null type *)
+Lemma coerce_lit_nonnull s dflt cv v t c :
+  is_nonnull t = true \/ (v <> VNull /\ forall x, v <> VVar x) ->
+  coerce_lit s dflt cv v t = Some c -> c <> VNull.
 Proof.
   intros Hn. destruct v; cbn [coerce_lit]; try (apply coerce_scalar_lit_nonnull).
-  - rewrite Hn. discriminate.
-  - destruct (lookup x cv) as [[]|]; try rewrite Hn; try discriminate;
+  - destruct Hn as [Hn|[Hn _]]; [rewrite Hn; discriminate | congruence].
+  - destruct Hn as [Hn|[_ Hn]]; [|exfalso; eapply Hn; reflexivity].
+    destruct (lookup x cv) as [[]|]; try rewrite Hn; try discriminate;
       intro H; inversion H; subst; discriminate.
   - destruct (list_item_type t); [|discriminate].
     match goal with |- option_map VList ?g = _ -> _ => destruct g end; cbn; [|discriminate].
     intro H; inversion H; discriminate.
+  - destruct (unwrap_named t) as [depth n].
+    destruct (lookup_type s n) as [[| | | | |defs oneof]|]; try discriminate.
+    destruct (pre_fields _ defs fields) as [pre|]; [|discriminate].
+    destruct (assemble dflt defs (get_pre pre)) as [out|]; [|discriminate].
+    destruct (oneof && negb (one_of_ok fields out)); [discriminate|].
+    intro H; inversion H; subst. apply wrap_list_nonnull. discriminate.
 Qed.
 
 Lemma coerce_leaf_val_nonnull s n v c : coerce_leaf_val s n v = Some c -> c <> VNull.
 Proof.
-  unfold coerce_leaf_val. destruct (lookup_type s n) as [[[]|vals| | |]|]; try discriminate;
+  unfold coerce_leaf_val. destruct (lookup_type s n) as [[[]|vals| | | |]|]; try discriminate;
     destruct v; try discriminate; intro H; try (inversion H; subst; discriminate).
   - destruct (in_int_range z); inversion H; subst; discriminate.
   - destruct (mem s0 vals); inversion H; subst; discriminate.
@@ -90,21 +112,29 @@ Proof.
   - apply IH.
 Qed.
 
-Lemma coerce_val_nonnull s v t c :
-  is_nonnull t = true -> coerce_val s v t = Some c -> c <> VNull.
+Lemma coerce_val_nonnull s dflt v t c :
+  is_nonnull t = true -> coerce_val s dflt v t = Some c -> c <> VNull.
 Proof.
   intros Hn. destruct v; cbn [coerce_val]; try (apply coerce_scalar_val_nonnull); try discriminate.
   - rewrite Hn. discriminate.
   - destruct (list_item_type t); [|discriminate].
     match goal with |- option_map VList ?g = _ -> _ => destruct g end; cbn; [|discriminate].
     intro H; inversion H; discriminate.
+  - destruct (unwrap_named t) as [depth n].
+    destruct (lookup_type s n) as [[| | | | |defs oneof]|]; try discriminate.
+    destruct (pre_fields _ defs fields) as [pre|]; [|discriminate].
+    destruct (assemble dflt defs (get_pre pre)) as [out|]; [|discriminate].
+    destruct (oneof && negb (one_of_ok fields out)); [discriminate|].
+    intro H; inversion H; subst. apply wrap_list_nonnull. discriminate.
 Qed.
 
-Lemma nodup_names_head x r : nodup_names (x :: r) = true -> ~ In x r /\ nodup_names r = true.
-Proof.
-  cbn. intro H. apply andb_true_iff in H. destruct H as [H1 H2]. split; [|exact H2].
-  apply negb_true_iff in H1. apply mem_not_In. exact H1.
-Qed.
+(* ------------------------------------------------------------------ variable values *)
+
+(* what variable coercion guarantees about the coerced map *)
+Definition cv_ok (vdefs : list var_def) (cv : list (str * value)) : Prop :=
+  forall vd, In vd vdefs ->
+    (is_nonnull (v_type vd) = true -> exists c, lookup (v_name vd) cv = Some c /\ c <> VNull) /\
+    (has_nonnull_default (v_default vd) = true -> exists c, lookup (v_name vd) cv = Some c).
 
 Lemma coerce_vars_ok s vdefs given cv :
   nodup_names (map v_name vdefs) = true ->
@@ -124,21 +154,130 @@ Proof.
       apply str_eqb_eq in E. exfalso. apply Hnotin. rewrite <- E. apply in_map. exact Hin. }
     destruct (lookup (v_name vd) given) as [gv|] eqn:Eg.
     + (* provided *)
-      destruct (coerce_val s gv (v_type vd)) as [c|] eqn:Ec; cbn in H; [|discriminate].
+      destruct (coerce_val s (coerce_const s) gv (v_type vd)) as [c|] eqn:Ec; cbn in H; [|discriminate].
       inversion H; subst; clear H. intros vd' [<-|Hin].
       * split; intros Hx; exists c; cbn; rewrite str_eqb_refl; [split; [reflexivity|] | reflexivity].
         eapply coerce_val_nonnull; [exact Hx | exact Ec].
       * rewrite (Htail c vd' Hin). apply IH. exact Hin.
     + destruct (v_default vd) as [lit|] eqn:Ed.
-      * destruct (coerce_lit s [] lit (v_type vd)) as [c|] eqn:Ec; cbn in H; [|discriminate].
+      * destruct (coerce_const s (v_type vd) lit) as [c|] eqn:Ec; cbn in H; [|discriminate].
         inversion H; subst; clear H. intros vd' [<-|Hin].
         -- split; intros Hx; exists c; cbn; rewrite str_eqb_refl; [split; [reflexivity|] | reflexivity].
-           eapply coerce_lit_nonnull; [exact Hx | exact Ec].
+           unfold coerce_const in Ec. cbn [coerce_default] in Ec.
+           eapply coerce_lit_nonnull; [left; exact Hx | exact Ec].
         -- rewrite (Htail c vd' Hin). apply IH. exact Hin.
       * destruct (is_nonnull (v_type vd)) eqn:En; cbn in H; [discriminate|].
         inversion H; subst; clear H. intros vd' [<-|Hin].
         -- split; intro Hx; [congruence|]. rewrite Ed in Hx. discriminate.
         -- apply IH. exact Hin.
+Qed.
+
+(* ------------------------------------------------------------------ schema facts *)
+
+(* argument defaults of a valid schema coerce *)
+Lemma schema_defaults s rt name fd :
+  schema_ok s = true -> lookup_field s rt name = Some fd -> defaults_ok s (f_args fd) = true.
+Proof.
+  intros Hs Hl.
+  assert (Hfs : exists fs, fields_defaults_ok s fs = true /\ In fd fs).
+  { unfold lookup_field, lookup_type in Hl.
+    destruct (scalar_of_name rt); [discriminate|].
+    destruct (lookup rt (s_types s)) as [td|] eqn:El; [|discriminate].
+    apply lookup_In in El. unfold schema_ok in Hs. rewrite forallb_forall in Hs.
+    specialize (Hs _ El). cbn in Hs.
+    destruct td as [| |fs ifs|fs| |]; try discriminate;
+      exists fs; (split; [exact Hs | apply find_field_In in Hl; apply Hl]). }
+  destruct Hfs as [fs [Hok Hfd]]. unfold fields_defaults_ok in Hok.
+  rewrite forallb_forall in Hok. exact (Hok _ Hfd).
+Qed.
+
+(* input object types of a valid schema *)
+Lemma schema_input s n defs oneof :
+  schema_ok s = true -> lookup_type s n = Some (TInput defs oneof) ->
+  nodup_names (map a_name defs) = true /\ defaults_ok s defs = true /\
+  (oneof = true ->
+   forall ad, In ad defs -> is_nonnull (a_type ad) = false /\ a_default ad = None).
+Proof.
+  intros Hs Hl. unfold lookup_type in Hl. destruct (scalar_of_name n); [discriminate|].
+  apply lookup_In in Hl. unfold schema_ok in Hs. rewrite forallb_forall in Hs.
+  specialize (Hs _ Hl). cbn in Hs. apply andb_true_iff in Hs. destruct Hs as [Hs Ho].
+  apply andb_true_iff in Hs. destruct Hs as [Hnd Hd].
+  split; [exact Hnd|]. split; [exact Hd|]. intros -> ad Hin. cbn in Ho. rewrite forallb_forall in Ho.
+  specialize (Ho _ Hin). apply andb_true_iff in Ho. destruct Ho as [H1 H2].
+  apply negb_true_iff in H1. split; [exact H1|].
+  unfold has_default in H2. destruct (a_default ad); [discriminate | reflexivity].
+Qed.
+
+Lemma find_arg_self defs ad :
+  nodup_names (map a_name defs) = true -> In ad defs -> find_arg (a_name ad) defs = Some ad.
+Proof.
+  induction defs as [|a r IH]; intros Hnd Hin; [destruct Hin|].
+  cbn [map] in Hnd. apply nodup_names_head in Hnd. destruct Hnd as [Hnot Hnd].
+  cbn [find_arg]. destruct Hin as [->|Hin]; [rewrite str_eqb_refl; reflexivity|].
+  destruct (str_eqb (a_name ad) (a_name a)) eqn:E; [|apply IH; assumption].
+  apply str_eqb_eq in E. exfalso. apply Hnot. rewrite <- E. apply in_map. exact Hin.
+Qed.
+
+(* ------------------------------------------------------------------ assembling arguments / input fields *)
+
+Lemma assemble_some dflt defs get :
+  (forall ad, In ad defs ->
+     match get ad with
+     | PAbsent => required_arg ad = false /\
+                  (forall lit, a_default ad = Some lit -> dflt (a_type ad) lit <> None)
+     | PValue c => c <> None
+     end) ->
+  exists r, assemble dflt defs get = Some r.
+Proof.
+  induction defs as [|ad rest IH]; intros H; [eexists; reflexivity|].
+  destruct (IH (fun ad' Hin => H ad' (or_intror Hin))) as [cr Hcr].
+  cbn [assemble]. rewrite Hcr. specialize (H ad (or_introl eq_refl)).
+  destruct (get ad) as [|c].
+  - destruct H as [Hr Hd]. rewrite Hr. destruct (a_default ad) as [lit|].
+    + destruct (dflt (a_type ad) lit) eqn:E; [eexists; reflexivity|]. exfalso. eapply Hd; [reflexivity|exact E].
+    + eexists; reflexivity.
+  - destruct c as [c|]; [eexists; reflexivity | congruence].
+Qed.
+
+Lemma defaults_ok_In s defs ad lit :
+  defaults_ok s defs = true -> In ad defs -> a_default ad = Some lit ->
+  coerce_const s (a_type ad) lit <> None.
+Proof.
+  unfold defaults_ok. rewrite forallb_forall. intros H Hin Hd. specialize (H _ Hin).
+  rewrite Hd in H. destruct (coerce_const s (a_type ad) lit); [discriminate | discriminate H].
+Qed.
+
+(* a OneOf object with one provided field yields exactly that entry *)
+Lemma assemble_oneof dflt defs k c :
+  nodup_names (map a_name defs) = true ->
+  (forall ad, In ad defs -> is_nonnull (a_type ad) = false /\ a_default ad = None) ->
+  assemble dflt defs (get_pre [(k, PValue (Some c))])
+  = Some (if mem k (map a_name defs) then [(k, c)] else []).
+Proof.
+  induction defs as [|ad rest IH]; intros Hnd H; [reflexivity|].
+  cbn [map] in Hnd. apply nodup_names_head in Hnd. destruct Hnd as [Hnot Hnd].
+  specialize (IH Hnd (fun ad' Hin => H ad' (or_intror Hin))).
+  cbn [assemble]. rewrite IH. destruct (H ad (or_introl eq_refl)) as [Hn Hd].
+  unfold get_pre at 1. cbn [lookup].
+  replace (mem k (map a_name (ad :: rest))) with (str_eqb k (a_name ad) || mem k (map a_name rest))
+    by reflexivity.
+  destruct (str_eqb (a_name ad) k) eqn:E.
+  - apply str_eqb_eq in E. subst k. rewrite str_eqb_refl. apply mem_not_In in Hnot. rewrite Hnot.
+    reflexivity.
+  - assert (E' : str_eqb k (a_name ad) = false).
+    { apply str_eqb_neq. apply str_eqb_neq in E. congruence. }
+    rewrite E'. cbn [orb]. unfold required_arg. rewrite Hn, Hd. cbn.
+    destruct (mem k (map a_name rest)); reflexivity.
+Qed.
+
+Lemma pre_fields_keys co defs flds pre :
+  pre_fields co defs flds = Some pre -> forall k, lookup k pre = None <-> lookup k flds = None.
+Proof.
+  revert pre. induction flds as [|[k0 x] r IH]; intros pre H k.
+  - inversion H; subst. split; reflexivity.
+  - cbn [pre_fields] in H. destruct (find_arg k0 defs) as [ad|]; [|discriminate].
+    destruct (pre_fields co defs r) as [pr|] eqn:Er; [|discriminate]. inversion H; subst.
+    cbn [lookup]. destruct (str_eqb k k0); [split; discriminate | apply IH; reflexivity].
 Qed.
 
 (* ------------------------------------------------------------------ literals and arguments *)
@@ -147,6 +286,7 @@ Section Args.
   Variable s : schema.
   Variable vdefs : list var_def.
   Variable cv : list (str * value).
+  Hypothesis Hschema : schema_ok s = true.
   Hypothesis Hcv : cv_ok vdefs cv.
   Let nulls := nulls_of vdefs cv.
 
@@ -183,12 +323,56 @@ Section Args.
         destruct (P2 Ha) as [c Hc]. congruence.
   Qed.
 
-  Lemma lit_sound : forall v t dflt,
-    lit_ok s vdefs nulls v t dflt = true ->
-    (exists c, coerce_lit s cv v t = Some c) \/
+  Definition lit_result (v : value) (t : ty) (dflt : bool) : Prop :=
+    (exists c, coerce_lit s (coerce_const s) cv v t = Some c) \/
     (exists x, v = VVar x /\ lookup x cv = None /\ (is_nonnull t = false \/ dflt = true)).
+
+  (* the fields of an object literal *)
+  Lemma pre_fields_sound defs flds :
+    Forall (fun kv => forall t dflt, lit_ok s vdefs nulls (snd kv) t dflt = true ->
+                                     lit_result (snd kv) t dflt) flds ->
+    (fix all (l : list (str * value)) : bool :=
+       match l with
+       | [] => true
+       | (k, x) :: r =>
+         match find_arg k defs with
+         | Some ad => lit_ok s vdefs nulls x (a_type ad) (has_default ad)
+         | None => false
+         end && all r
+       end) flds = true ->
+    exists pre,
+      pre_fields (fun x t' => if missing_var cv x then PAbsent
+                              else PValue (coerce_lit s (coerce_const s) cv x t')) defs flds = Some pre /\
+      forall k p, lookup k pre = Some p ->
+        match p with
+        | PValue c => c <> None
+        | PAbsent => forall ad, find_arg k defs = Some ad -> required_arg ad = false
+        end.
   Proof.
-    induction v as [ | z | n d | x | b | x | x | l IHl] using value_ind'; intros t dflt H; cbn [lit_ok] in H;
+    induction flds as [|[k x] r IH]; intros HF H.
+    - exists []. split; [reflexivity|]. intros k p Hl. discriminate.
+    - inversion HF as [|? ? Hx HF']; subst. cbn [snd] in Hx.
+      destruct (find_arg k defs) as [ad|] eqn:Ea; [|discriminate].
+      apply andb_true_iff in H. destruct H as [H1 H2].
+      destruct (IH HF' H2) as [pre [Hp Hall]]. cbn [pre_fields]. rewrite Ea, Hp.
+      eexists. split; [reflexivity|]. intros k' p Hl. cbn [lookup] in Hl.
+      destruct (str_eqb k' k) eqn:Ek; [|apply Hall; exact Hl].
+      apply str_eqb_eq in Ek. subst k'. inversion Hl; subst; clear Hl.
+      destruct (Hx _ _ H1) as [[c Hc]|[y [-> [Hy Hor]]]].
+      + destruct (missing_var cv x) eqn:Em.
+        * (* a variable without value that nevertheless coerces: impossible *)
+          destruct x; try discriminate. cbn in Em, Hc. destruct (lookup x cv); discriminate.
+        * rewrite Hc. discriminate.
+      + cbn [missing_var]. rewrite Hy. intros ad' Ha'. rewrite Ea in Ha'. inversion Ha'; subst ad'.
+        unfold required_arg, has_default in *. destruct Hor as [Hi|Hi]; [rewrite Hi; reflexivity|].
+        destruct (a_default ad); [apply andb_false_r | discriminate].
+  Qed.
+
+  Lemma lit_sound : forall v t dflt,
+    lit_ok s vdefs nulls v t dflt = true -> lit_result v t dflt.
+  Proof.
+    induction v as [ | z | n d | x | b | x | x | l IHl | l IHl] using value_ind';
+      intros t dflt H; cbn [lit_ok] in H; unfold lit_result;
       try (left; cbn [coerce_lit];
            match type of H with match ?c with Some _ => _ | None => _ end = _ =>
              destruct c as [c0|]; [exists c0; reflexivity | discriminate] end).
@@ -213,41 +397,75 @@ Section Args.
         * eexists; reflexivity.
         * cbn [coerce_lit]. rewrite Hz, Hi. eexists; reflexivity.
         * discriminate.
+    - (* input object *)
+      left. cbn [coerce_lit]. destruct (unwrap_named t) as [depth n].
+      destruct (lookup_type s n) as [[| | | | |defs oneof]|] eqn:El; try discriminate.
+      apply andb_true_iff in H. destruct H as [H Hone].
+      apply andb_true_iff in H. destruct H as [H Hreq].
+      apply andb_true_iff in H. destruct H as [_ Hall].
+      destruct (schema_input s n defs oneof Hschema El) as [Hnd [Hdef Hoo]].
+      destruct (pre_fields_sound defs l IHl Hall) as [pre [Hp Hpre]]. rewrite Hp.
+      destruct (assemble_some (coerce_const s) defs (get_pre pre)) as [out Hout].
+      { intros ad Hin. unfold get_pre. destruct (lookup (a_name ad) pre) as [p|] eqn:Elp.
+        - specialize (Hpre _ _ Elp). destruct p as [|c]; [|exact Hpre].
+          split; [|intros lit Hl; eapply defaults_ok_In; eassumption].
+          apply Hpre. apply find_arg_self; assumption.
+        - split; [|intros lit Hl; eapply defaults_ok_In; eassumption].
+          apply (pre_fields_keys _ _ _ _ Hp) in Elp.
+          rewrite forallb_forall in Hreq. specialize (Hreq _ Hin). unfold has_key in Hreq.
+          rewrite Elp in Hreq. cbn in Hreq. apply negb_true_iff in Hreq. exact Hreq. }
+      rewrite Hout.
+      destruct oneof; cbn [andb]; [|eexists; reflexivity].
+      (* OneOf: exactly one field, whose value is not null *)
+      cbn [negb orb] in Hone.
+      destruct l as [|[k x] [|? ?]]; try discriminate.
+      apply andb_true_iff in Hone. destruct Hone as [Hnx Hvar].
+      cbn [pre_fields] in Hp. destruct (find_arg k defs) as [ad|] eqn:Ea; [|discriminate].
+      assert (Hc : exists c, missing_var cv x = false /\
+                             coerce_lit s (coerce_const s) cv x (a_type ad) = Some c /\ c <> VNull).
+      { inversion IHl as [|? ? Hx _]; subst. cbn [snd] in Hx.
+        cbn in Hall. apply andb_true_iff in Hall. destruct Hall as [Hlx _].
+        destruct x as [ | z | n0 d | x0 | b | x0 | y | l0 | l0];
+          try (destruct (Hx _ _ Hlx) as [[c Hc]|[y0 [Hy0 _]]]; [|discriminate];
+               exists c; split; [reflexivity|]; split; [exact Hc|];
+               eapply coerce_lit_nonnull; [right; split; [discriminate | intros ?; discriminate] | exact Hc]).
+        - cbn in Hnx. discriminate Hnx.
+        - (* a variable: a OneOf field is a non-null position *)
+          destruct (find_var y vdefs) as [vd|] eqn:Ev; [|discriminate].
+          pose proof (var_usage y vd (TNonNull (a_type ad)) false Ev Hvar) as Hu.
+          cbn [missing_var coerce_lit]. destruct (lookup y cv) as [c0|] eqn:Ely.
+          + specialize (Hu eq_refl). exists c0. split; [reflexivity|]. split; [|exact Hu].
+            destruct c0; try reflexivity. congruence.
+          + destruct Hu; discriminate. }
+      destruct Hc as [c [Hm [Hc Hcn]]]. rewrite Hm, Hc in Hp. inversion Hp; subst pre; clear Hp.
+      rewrite (assemble_oneof (coerce_const s) defs k c Hnd (Hoo eq_refl)) in Hout.
+      assert (Hk : mem k (map a_name defs) = true).
+      { apply mem_In. apply find_arg_In in Ea. destruct Ea as [Hin <-]. apply in_map. exact Hin. }
+      rewrite Hk in Hout. inversion Hout; subst out. cbn [one_of_ok].
+      rewrite Hnx. destruct c; try (eexists; reflexivity). congruence.
   Qed.
 
   Lemma args_sound defs args :
-    (forall ad lit, In ad defs -> a_default ad = Some lit -> coerce_lit s [] lit (a_type ad) <> None) ->
+    defaults_ok s defs = true ->
     forallb (fun ad =>
        match lookup (a_name ad) args with
        | None => negb (required_arg ad)
-       | Some v => lit_ok s vdefs nulls v (a_type ad) (match a_default ad with Some _ => true | None => false end)
+       | Some v => lit_ok s vdefs nulls v (a_type ad) (has_default ad)
        end) defs = true ->
     exists r, coerce_args s cv defs args = Some r.
   Proof.
-    induction defs as [|ad rest IH]; intros Hd H.
-    - eexists; reflexivity.
-    - cbn [forallb] in H. apply andb_true_iff in H. destruct H as [H1 H2].
-      destruct (IH (fun ad' lit Hin => Hd ad' lit (or_intror Hin)) H2) as [cr Hcr].
-      cbn [coerce_args]. rewrite Hcr.
-      assert (Hdef : exists o, match a_default ad with
-                               | Some lit => option_map Some (coerce_lit s [] lit (a_type ad))
-                               | None => Some None
-                               end = Some o).
-      { destruct (a_default ad) as [lit|] eqn:Ed; [|eexists; reflexivity].
-        destruct (coerce_lit s [] lit (a_type ad)) eqn:Ec; [eexists; reflexivity|].
-        exfalso. eapply Hd; [left; reflexivity | exact Ed | exact Ec]. }
-      destruct Hdef as [o Ho]. rewrite Ho.
-      destruct (lookup (a_name ad) args) as [v|] eqn:El.
-      + destruct (lit_sound v (a_type ad) _ H1) as [[c Hc]|[x [-> [Hx Hor]]]].
-        * destruct (match v with VVar x => _ | _ => false end && negb (required_arg ad)).
-          -- destruct o; eexists; reflexivity.
-          -- rewrite Hc. eexists; reflexivity.
-        * rewrite Hx. cbn [andb].
-          assert (Hr : required_arg ad = false).
-          { unfold required_arg. destruct Hor as [Hi|Hi]; [rewrite Hi; reflexivity|].
-            destruct (a_default ad); [apply andb_false_r | discriminate]. }
-          rewrite Hr. cbn. destruct o; eexists; reflexivity.
-      + apply negb_true_iff in H1. rewrite H1. destruct o; eexists; reflexivity.
+    intros Hd H. unfold coerce_args. apply assemble_some. intros ad Hin.
+    rewrite forallb_forall in H. specialize (H _ Hin).
+    destruct (lookup (a_name ad) args) as [v|].
+    - destruct (lit_sound v _ _ H) as [[c Hc]|[x [-> [Hx Hor]]]].
+      + destruct (missing_var cv v) eqn:Em.
+        * destruct v; try discriminate. cbn in Em, Hc. destruct (lookup x cv); discriminate.
+        * rewrite Hc. discriminate.
+      + cbn [missing_var]. rewrite Hx.
+        split; [|intros lit Hl; eapply defaults_ok_In; eassumption].
+        unfold required_arg, has_default in *. destruct Hor as [Hi|Hi]; [rewrite Hi; reflexivity|].
+        destruct (a_default ad); [apply andb_false_r | discriminate].
+    - split; [apply negb_true_iff in H; exact H | intros lit Hl; eapply defaults_ok_In; eassumption].
   Qed.
 End Args.
 
@@ -470,7 +688,7 @@ Section Conf.
     In fd (fields_of s rt) /\ f_name fd = name.
   Proof.
     unfold is_object, lookup_field, fields_of.
-    destruct (lookup_type s rt) as [[| |fs ifs| |]|]; try discriminate.
+    destruct (lookup_type s rt) as [[| |fs ifs| | |]|]; try discriminate.
     intros _ H. apply find_field_In. exact H.
   Qed.
 
@@ -504,31 +722,12 @@ Section Conf.
 
   Lemma complete_leaf_nonnull td l j : complete_leaf td l = Some j -> j <> JNull.
   Proof.
-    destruct td as [[]|vals| | |]; destruct l; cbn; try discriminate;
+    destruct td as [[]|vals| | | |]; destruct l; cbn; try discriminate;
       intro H; try (inversion H; subst; discriminate).
     - destruct (in_int_range z); inversion H; subst; discriminate.
     - destruct (mem s0 vals); inversion H; subst; discriminate.
   Qed.
 
-  (* argument defaults of a valid schema coerce *)
-  Lemma schema_defaults rt name fd :
-    schema_ok s = true -> lookup_field s rt name = Some fd ->
-    forall ad lit, In ad (f_args fd) -> a_default ad = Some lit -> coerce_lit s [] lit (a_type ad) <> None.
-  Proof.
-    intros Hs Hl ad lit Hin Hd.
-    assert (Hfs : exists fs, fields_defaults_ok s fs = true /\ In fd fs).
-    { unfold lookup_field, lookup_type in Hl.
-      destruct (scalar_of_name rt); [discriminate|].
-      destruct (lookup rt (s_types s)) as [td|] eqn:El; [|discriminate].
-      apply lookup_In in El. unfold schema_ok in Hs. rewrite forallb_forall in Hs.
-      specialize (Hs _ El). cbn in Hs.
-      destruct td as [| |fs ifs|fs|]; try discriminate;
-        exists fs; (split; [exact Hs | apply find_field_In in Hl; apply Hl]). }
-    destruct Hfs as [fs [Hok Hfd]]. unfold fields_defaults_ok in Hok.
-    rewrite forallb_forall in Hok. specialize (Hok _ Hfd). rewrite forallb_forall in Hok.
-    specialize (Hok _ Hin). rewrite Hd in Hok.
-    destruct (coerce_lit s [] lit (a_type ad)); [discriminate | discriminate Hok].
-  Qed.
 End Conf.
 
 (* ------------------------------------------------------------------ well-typed execution over conforming data *)
@@ -614,7 +813,7 @@ Section ExecSound.
       destruct (lookup_field s rt (fs_name f1)) as [fd|] eqn:El; [|discriminate].
       apply andb_true_iff in Hf1. destruct Hf1 as [Hargs _].
       unfold args_ok in Hargs. apply andb_true_iff in Hargs. destruct Hargs as [_ Hargs].
-      destruct (args_sound s vdefs cv Hcv (f_args fd) (fs_args f1)
+      destruct (args_sound s vdefs cv Hschema Hcv (f_args fd) (fs_args f1)
                   (schema_defaults s rt (fs_name f1) fd Hschema El) Hargs) as [args Ha].
       rewrite Ha in H.
       destruct (complete s frags cv f (f_type fd) (merged_sels (f1 :: fs'))
@@ -647,7 +846,7 @@ Section ExecSound.
         cbn [conforms] in Hc. destruct (lookup_type s n) as [td|] eqn:El; [|discriminate].
         apply andb_true_iff in Hc. destruct Hc as [Hleaf Hcl].
         destruct (complete_leaf td l) as [j|] eqn:Ecl; [|discriminate].
-        destruct td as [sc|vals| | |]; try discriminate;
+        destruct td as [sc|vals| | | |]; try discriminate;
           inversion H; subst; eexists _, _;
             (split; [reflexivity | intros _; eapply complete_leaf_nonnull; exact Ecl]).
       + (* DObj *)
@@ -662,10 +861,10 @@ Section ExecSound.
           destruct (IHs _ _ _ _ Hobj Hst Hoc He) as [j [cs0 [-> Hj]]].
           eexists _, _. split; [reflexivity | intros _; exact Hj]. }
         destruct Hrt as [[Ho ->]|[Hn [Ho [Hp ->]]]].
-        * unfold is_object in Ho. destruct (lookup_type s n) as [[| |ofs ifs| |]|]; try discriminate.
+        * unfold is_object in Ho. destruct (lookup_type s n) as [[| |ofs ifs| | |]|]; try discriminate.
           apply Hgo. exact H.
         * unfold is_object in Hn. unfold possible in Hp.
-          destruct (lookup_type s n) as [[| |ofs ifs|ifs|ms]|] eqn:El; try discriminate.
+          destruct (lookup_type s n) as [[| |ofs ifs|ifs|ms|idefs ioo]|] eqn:El; try discriminate.
           -- fold (is_object s tn) in H. unfold possible in H. rewrite El in H.
              rewrite Ho in H. cbn [andb] in H. rewrite Hp in H. apply Hgo. exact H.
           -- fold (is_object s tn) in H. unfold possible in H. rewrite El in H.
@@ -699,7 +898,7 @@ Proof.
   destruct (lookup_field s rt (fs_name f)) as [fd|] eqn:El; [|discriminate].
   apply andb_true_iff in Hf. destruct Hf as [Hargs _].
   unfold args_ok in Hargs. apply andb_true_iff in Hargs. destruct Hargs as [_ Hargs].
-  destruct (args_sound s vdefs cv Hcv (f_args fd) (fs_args f)
+  destruct (args_sound s vdefs cv Hs Hcv (f_args fd) (fs_args f)
               (schema_defaults s rt (fs_name f) fd Hs El) Hargs) as [args Ha].
   exists fd, args. split; [reflexivity | exact Ha].
 Qed.
@@ -812,12 +1011,12 @@ Section Attrib.
       destruct d as [|l|tn flds|items|].
       + destruct t as [n|it|t']; [| |eapply HN; [reflexivity|exact H]]; inversion H; subst; constructor.
       + destruct t as [n|it|t']; [|eapply HR; [|exact H]; discriminate|eapply HN; [reflexivity|exact H]].
-        destruct (lookup_type s n) as [[sc|vals|ofs ifs|ifs|ms]|];
+        destruct (lookup_type s n) as [[sc|vals|ofs ifs|ifs|ms|idefs ioo]|];
           try (eapply HR; [|exact H]; discriminate).
         * destruct (complete_leaf (TScalar sc) l); [inversion H; subst; constructor | eapply HR; [|exact H]; discriminate].
         * destruct (complete_leaf (TEnum vals) l); [inversion H; subst; constructor | eapply HR; [|exact H]; discriminate].
       + destruct t as [n|it|t']; [|eapply HR; [|exact H]; discriminate|eapply HN; [reflexivity|exact H]].
-        destruct (lookup_type s n) as [[sc|vals|ofs ifs|ifs|ms]|] eqn:El;
+        destruct (lookup_type s n) as [[sc|vals|ofs ifs|ifs|ms|idefs ioo]|] eqn:El;
           try (eapply HR; [|exact H]; discriminate).
         * assert (Ho : is_object s n = true) by (unfold is_object; rewrite El; reflexivity).
           eapply HO; [reflexivity | apply runtime_self; exact Ho | exact Ho | exact H].
@@ -828,7 +1027,7 @@ Section Attrib.
           apply andb_true_iff in Ep. destruct Ep as [Ho Hp].
           eapply HO; [reflexivity | | exact Ho | exact H]. unfold runtime_of_b. rewrite Ho, Hp. apply orb_true_r.
       + destruct t as [n|it|t']; [| |eapply HN; [reflexivity|exact H]].
-        * destruct (lookup_type s n) as [[sc|vals|ofs ifs|ifs|ms]|]; eapply HR; try exact H; discriminate.
+        * destruct (lookup_type s n) as [[sc|vals|ofs ifs|ifs|ms|idefs ioo]|]; eapply HR; try exact H; discriminate.
         * destruct (complete_items (fun x => option_map (catch it) (complete s frags cv f it sels x)) items O)
             as [[[r0 es0] cs0]|] eqn:Ei; [|discriminate].
           assert (Hn : noargs es0).
@@ -1105,8 +1304,8 @@ Section ShapeSound.
 
   Lemma possible_is_object a o : possible s a o = true -> is_object s o = true.
   Proof.
-    unfold possible, is_object. destruct (lookup_type s a) as [[| | | |]|]; try discriminate;
-      destruct (lookup_type s o) as [[| | | |]|]; try discriminate; reflexivity.
+    unfold possible, is_object. destruct (lookup_type s a) as [[| | | | |]|]; try discriminate;
+      destruct (lookup_type s o) as [[| | | | |]|]; try discriminate; reflexivity.
   Qed.
 
   Theorem shape_ok_sound : forall fuel,
@@ -1145,7 +1344,7 @@ Section ShapeSound.
           { intros kvs _ Hjk He. apply existsb_exists in He. destruct He as [rt [_ He]].
             apply andb_true_iff in He. destruct He as [Hp Ho].
             eapply Hobj; [|exact Hjk|exact Ho]. right. split; [eapply possible_is_object; exact Hp | exact Hp]. }
-          destruct td as [sc|vals|ofs ifs|ifs|ms].
+          destruct td as [sc|vals|ofs ifs|ifs|ms|idefs ioo].
           + eapply sh_leaf; eassumption.
           + eapply sh_leaf; eassumption.
           + destruct j; try discriminate. eapply Hobj; [|reflexivity|exact HH].
